@@ -2801,8 +2801,9 @@ func (te *TemplateEngine) renderImages(content string, images map[string]*Templa
 // processImagePlaceholders 处理文档中的图片占位符
 func (te *TemplateEngine) processImagePlaceholders(doc *Document, data *TemplateData) error {
 	// 遍历文档元素，查找并替换图片占位符
-	for i, element := range doc.Body.Elements {
-		switch elem := element.(type) {
+	// 元素列表在循环中会被替换/变长，因此按当前列表的下标遍历，并跳过刚插入的元素
+	for i := 0; i < len(doc.Body.Elements); i++ {
+		switch elem := doc.Body.Elements[i].(type) {
 		case *Paragraph:
 			// 检查段落是否包含图片占位符
 			newElements, err := te.processImagePlaceholdersInParagraph(elem, data, doc)
@@ -2814,6 +2815,7 @@ func (te *TemplateEngine) processImagePlaceholders(doc *Document, data *Template
 			if len(newElements) > 1 || (len(newElements) == 1 && newElements[0] != elem) {
 				// 移除原段落，插入新元素（可能包含图片段落）
 				doc.Body.Elements = append(doc.Body.Elements[:i], append(newElements, doc.Body.Elements[i+1:]...)...)
+				i += len(newElements) - 1
 			}
 		case *Table:
 			// 处理表格中的图片占位符 (Fix for Issue #91)
@@ -2831,7 +2833,8 @@ func (te *TemplateEngine) processImagePlaceholdersInTable(table *Table, data *Te
 		for cellIdx := range table.Rows[rowIdx].Cells {
 			cell := &table.Rows[rowIdx].Cells[cellIdx]
 			// 处理单元格中的每个段落
-			for paraIdx := range cell.Paragraphs {
+			// 段落列表在循环中可能变长，因此按当前列表的下标遍历，并跳过刚插入的段落
+			for paraIdx := 0; paraIdx < len(cell.Paragraphs); paraIdx++ {
 				para := &cell.Paragraphs[paraIdx]
 				newElements, err := te.processImagePlaceholdersInParagraph(para, data, doc)
 				if err != nil {
@@ -2849,13 +2852,16 @@ func (te *TemplateEngine) processImagePlaceholdersInTable(table *Table, data *Te
 						// 多个元素的情况：替换当前段落为第一个，其余追加
 						newParagraphs := make([]Paragraph, 0, len(cell.Paragraphs)-1+len(newElements))
 						newParagraphs = append(newParagraphs, cell.Paragraphs[:paraIdx]...)
+						inserted := 0
 						for _, elem := range newElements {
 							if p, ok := elem.(*Paragraph); ok {
 								newParagraphs = append(newParagraphs, *p)
+								inserted++
 							}
 						}
 						newParagraphs = append(newParagraphs, cell.Paragraphs[paraIdx+1:]...)
 						cell.Paragraphs = newParagraphs
+						paraIdx += inserted - 1
 					}
 				}
 			}
@@ -2875,20 +2881,10 @@ func (te *TemplateEngine) processImagePlaceholdersInParagraph(para *Paragraph, d
 	// 检查是否包含图片占位符（支持两种格式）
 	// 1. 原始模板格式：{{#image imageName}}
 	// 2. 渲染后格式：[IMAGE:imageName]
-	originalImagePattern := regexp.MustCompile(`\{\{#image\s+(\w+)\}\}`)
-	renderedImagePattern := regexp.MustCompile(`\[IMAGE:(\w+)\]`)
-
-	originalMatches := originalImagePattern.FindAllStringSubmatch(fullText, -1)
-	renderedMatches := renderedImagePattern.FindAllStringSubmatch(fullText, -1)
-
-	// 合并两种格式的匹配结果
-	allMatches := make([][2]string, 0)
-	for _, match := range originalMatches {
-		allMatches = append(allMatches, [2]string{match[0], match[1]})
-	}
-	for _, match := range renderedMatches {
-		allMatches = append(allMatches, [2]string{match[0], match[1]})
-	}
+	// 两种格式用同一个正则表达式按文本顺序查找：分别查找再拼接会打乱占位符的先后顺序，
+	// 之后按顺序定位占位符会失败（位置为 -1），导致图片错位、文本丢失甚至切片越界
+	imagePattern := regexp.MustCompile(`\{\{#image\s+(\w+)\}\}|\[IMAGE:(\w+)\]`)
+	allMatches := imagePattern.FindAllStringSubmatchIndex(fullText, -1)
 
 	if len(allMatches) == 0 {
 		// 没有图片占位符，返回原段落
@@ -2900,9 +2896,16 @@ func (te *TemplateEngine) processImagePlaceholdersInParagraph(para *Paragraph, d
 
 	// 处理每个图片占位符
 	for _, match := range allMatches {
-		imageName := match[1]
-		matchStart := strings.Index(fullText[lastEnd:], match[0]) + lastEnd
-		matchEnd := matchStart + len(match[0])
+		matchStart := match[0]
+		matchEnd := match[1]
+
+		// 图片名称在第一个或第二个分组中（取决于占位符格式）
+		imageName := ""
+		if match[2] >= 0 {
+			imageName = fullText[match[2]:match[3]]
+		} else if match[4] >= 0 {
+			imageName = fullText[match[4]:match[5]]
+		}
 
 		// 添加图片占位符前的文本（如果有）
 		if matchStart > lastEnd {
